@@ -525,6 +525,19 @@ fn asan_roundtrips(rep: &Report, seed: u64, tier: Tier) {
         if rng.chance(1, 3) {
             spec.buffered = Some(rng.urange(1, 9));
         }
+        // zstd's ultra levels set up 200-800 MB of tables per chunk in flight (x 1.25 under
+        // the sanitizer) and zero them for every chunk: at the default pipeline width one
+        // such run touches 10-20 GB, which on a freshly restored or busy machine costs
+        // minutes of kernel CPU time and says nothing about memory safety. Keep those runs
+        // to two chunks in flight and a few dozen chunks; every other case keeps its width.
+        if matches!(comp, crate::gen::Comp::Zstd(l) if l >= 20) {
+            spec.buffered = Some(spec.buffered.unwrap_or(2).min(2));
+            let typical = match spec.cfg.algo {
+                r1::Algo::Fixed => spec.cfg.max,
+                _ => (1usize << spec.cfg.bits) + spec.cfg.min,
+            };
+            source.truncate((typical * 24 + 17).max(20_000));
+        }
         let prior = if rng.chance(1, 3) { Some(crate::gen::apply_edit(&mut rng, &source, crate::gen::Edit::Swap)) } else { None };
         let r = asan::roundtrip_case(&dir, &format!("r{}", i), &source, &spec, prior.as_deref());
         (spec.describe(), comp, r)
